@@ -1,11 +1,12 @@
 (* C13 -- multi-source combinators follow their pairing rules.
    amb: refinement to [amb_spec] for EVERY input sequence.  zip: the pairing
    invariant for EVERY sequence of deliveries, plus its emission and completion
-   rules.  combine_latest / with_latest_from / fork_join: their emission and
-   completion rules read off the machines (which the K2 correspondence ties to
-   the code), stated as step lemmas. *)
+   rules.  combine_latest / with_latest_from: closed forms over EVERY sequence
+   of deliveries (the emitted tuples are exactly the snapshots of the latest
+   elements, from the first moment every source has one), plus their step
+   rules; fork_join: emission and completion rule as a step lemma. *)
 From RxVerif Require Import Base.Prelude Ops.Machine Ops.Multi Ops.MultiFacts Ops.RunLemmas
-  Ops.Combinators Ops.MergeFacts Ops.CombineFacts.
+  Ops.Combinators Ops.MergeFacts Ops.CombineFacts Ops.LatestFacts.
 
 Theorem C13_amb_refines_spec : forall A n (ins : list (Z * inp A)),
   temitted (fst (run (x_amb n) ins)) = amb_spec n None 1 ins.
@@ -75,6 +76,42 @@ Theorem C13_fork_join_rule : forall A n values done now k,
     end.
 Proof. reflexivity. Qed.
 Print Assumptions C13_fork_join_rule.
+
+(* combine_latest over n >= 1 sources, ANY sequence of deliveries (source, element):
+   the tuples emitted are exactly [cl_spec] -- one per delivery from the first
+   moment every source has delivered, each the snapshot of the latest elements *)
+Theorem C13_combine_latest_closed_form : forall A n (ins : list (nat * A)) done,
+  (0 < n)%nat -> Forall (fun p => (fst p < n)%nat) ins ->
+  snd (cl_feed n (repeat None n, false, done) ins []) = cl_spec n [] ins.
+Proof. exact @combine_latest_closed_form. Qed.
+Print Assumptions C13_combine_latest_closed_form.
+
+(* ... and every such tuple has one component per source, component j being the
+   last element source j delivered up to that point *)
+Theorem C13_combine_latest_tuples_are_latest : forall A n (seen ins : list (nat * A)) tuple,
+  In tuple (cl_spec n seen ins) ->
+  exists pre post, ins = pre ++ post /\ pre <> [] /\ length tuple = n /\
+    forall j d, (j < n)%nat -> latest j (seen ++ pre) = Some (nth j tuple d).
+Proof. exact @combine_latest_tuples_are_latest. Qed.
+Print Assumptions C13_combine_latest_tuples_are_latest.
+
+(* with_latest_from (parent = source 0, children 1..n), ANY sequence of deliveries:
+   exactly the parent's elements arriving once every child has delivered are
+   emitted, each paired with the children's latest elements *)
+Theorem C13_with_latest_from_closed_form : forall A n (ins : list (nat * A)),
+  Forall (fun p => (fst p <= n)%nat) ins ->
+  snd (wlf_feed n (repeat None n) ins []) = wlf_spec n [] ins.
+Proof. exact @with_latest_from_closed_form. Qed.
+Print Assumptions C13_with_latest_from_closed_form.
+
+Example C13_witness_combine_latest :
+  snd (cl_feed 2 (repeat None 2, false, repeat false 2) [(0%nat, 1); (0%nat, 2); (1%nat, 10); (0%nat, 3); (1%nat, 20)] [])
+  = [[2; 10]; [3; 10]; [3; 20]].
+Proof. vm_compute. reflexivity. Qed.
+Example C13_witness_with_latest_from :
+  snd (wlf_feed 1 (repeat None 1) [(0%nat, 1); (1%nat, 10); (0%nat, 2); (1%nat, 20); (0%nat, 3)] [])
+  = [[2; 10]; [3; 20]].
+Proof. vm_compute. reflexivity. Qed.
 
 Example C13_witness_zip :
   let '(st, outs) := zip_feed 2 (repeat [] 2, repeat false 2) [(0%nat, 1); (0%nat, 2); (1%nat, 10); (1%nat, 20); (1%nat, 30)] [] in
